@@ -1,7 +1,7 @@
 """Checks for the statime (PTP / CSPTP) crates, driven through the stand-alone harness package harness/ext
 (public API only): C41 (spec/PtpWire.tla), C45 C44 (spec/Csptp.tla), C42 C43 (spec/Estimator.tla)."""
 import os, json, zlib, random
-import vf
+import vf, sm
 
 CRATE = "verif_ext"
 
@@ -190,6 +190,105 @@ def run_c45(out, tier, seed):
 
 
 # ------------------------------------------------------------------------------------------------
+# C44  CSPTP clients survive any traffic and use only matching answers  (Csptp.tla, client part)
+# ------------------------------------------------------------------------------------------------
+class CsptpClient(sm.SM):
+    module = "Csptp"
+    mc_module = "MC_CsptpClient"
+    crate = CRATE
+    test = "csptp_client::verif_csptp_client"
+    which = "ext"
+
+    def harness_cfg(self, cfgname, init_state):
+        return {}
+
+    def act_sig(self, a):
+        if a["t"] == "Timeout":
+            return "Timeout"
+        p = a["p"]
+        if p["kind"] in ("resp1", "resp2", "followup") and p["match"] == "match":
+            return "Recv[%s,t3=%s,corr=%s,reqcorr=%s]" % (p["kind"], p["t3"], p["corr"], p["reqcorr"])
+        return "Recv[%s,%s]" % (p["kind"], p["match"])
+
+    def model_and_replay(self, out, prop, tier, seed, cfgname, max_len=40):
+        """As sm.SM.model_and_replay, plus: a transition on which the implementation fails ends its walk (a panic kills
+        run()), so the transitions behind it are re-toured on the graph without the failing transitions."""
+        wd = vf.workdir("%s_%s" % (self.module, cfgname))
+        g, mc, inits = vf.collect_graph(self.mc_module, "Gen_%s_%s.cfg" % (self.module, cfgname), workers=4, timeout=1500)
+        if mc.violated:
+            raise vf.ToolError("model %s/%s violates %s at design level:\n%s" % (self.module, cfgname, mc.violated, mc.error_trace[:3000]))
+        out.add("states", mc.distinct)
+        out.add("transitions", mc.generated)
+        if not inits:
+            raise vf.ToolError("generator printed no INIT state")
+        wanted = set(i for i, e in enumerate(g.edges) if e[2]["cones"].get(prop))
+        if not wanted:
+            raise vf.ToolError("vacuous: no transition constrained by %s" % prop)
+        confirmed, failing = set(), set()
+        steps = nwalks = 0
+        for rnd in range(3):
+            todo = wanted - confirmed - failing
+            if not todo:
+                break
+            h = vf.Graph()
+            h.ids, h.states = g.ids, g.states
+            idx = []
+            for i, e in enumerate(g.edges):
+                if i not in failing:
+                    h.out[e[0]].append(len(h.edges))
+                    h.edges.append(e)
+                    idx.append(i)
+            walks = h.tours(inits[0], max_len=max_len, rng=random.Random(seed + rnd), edge_filter=None)
+            walks = [[idx[e] for e in w] for w in walks if any(idx[e] in todo for e in w)]
+            wf = os.path.join(wd, "walks_%s_%d.ndjson" % (prop, rnd))
+            rf = os.path.join(wd, "results_%s_%d.ndjson" % (prop, rnd))
+            vf.write_ndjson(wf, [{"id": n, "walk": [{"act": g.edges[e][2]["act"], "post": g.edges[e][2]["post"], "out": g.edges[e][2]["out"]}
+                                                      for e in w]} for n, w in enumerate(walks)])
+            vf.run_harness(self.crate, self.test, {"mode": "replay", "cfg": {}, "input": wf, "output": rf, "seed": seed}, which=self.which)
+            results = vf.read_ndjson(rf)
+            if len(results) != len(walks):
+                raise vf.ToolError("harness returned %d results for %d walks" % (len(results), len(walks)))
+            for r in results:
+                w = walks[r["id"]]
+                steps += r["steps_run"]
+                ok_upto = r["steps_run"] if r["fail"] is None else r["fail"]["step"]
+                confirmed.update(w[:ok_upto])
+                if r["fail"] is not None:
+                    f = r["fail"]
+                    e = w[f["step"]]
+                    failing.add(e)
+                    self.attribute(out, prop, cfgname, g.edges[e][2], f, [g.edges[x][2]["act"] for x in w[:f["step"] + 1]], "replay")
+            nwalks += len(walks)
+            if rnd == 0 and walks:
+                w = walks[0][:5]
+                out.sample({"cfg": cfgname, "walk_prefix": [g.edges[e][2]["act"] for e in w], "expected_out_of_last": g.edges[w[-1]][2]["out"]})
+        out.add("replayed_steps", steps)
+        out.add("replayed_walks", nwalks)
+        out.add("model_transitions_constrained_by_property", len(wanted))
+        out.add("model_transitions_confirmed_on_impl", len(confirmed & wanted))
+        out.add("model_transitions_failing_on_impl", len(failing))
+        rest = wanted - confirmed - failing
+        if rest and not failing:
+            raise vf.ToolError("%d model transitions could not be replayed" % len(rest))
+        if rest:
+            out.notes.append("%d model transitions not replayed (only reachable through failing transitions within 3 tours)" % len(rest))
+
+    def attribute(self, out, prop, cfgname, rec, fail, acts, how):
+        # signature by the kind of completion rather than by every class combination: the timestamp / correction
+        # classes that take the corrected send time out of range all expose the same defect
+        fields = set(fail["fields"])
+        cone = set(rec["cones"].get(prop, []))
+        if "panic" in fields and "panic" in cone:
+            m = rec["out"]["meas"]
+            shape = ("completion,corrected-send-time-%s" % ("in-range" if m["inrange"] else "out-of-range")) if m["n"] else self.act_sig(rec["act"])
+            detail = {"how": how, "cfg": cfgname, "history": acts, "expected": {"post": rec["post"], "out": rec["out"]},
+                      "observed": fail.get("observed"), "panic": fail.get("panic"), "differing": sorted(fields)}
+            out.violation("Csptp:client:%s:panic" % shape, detail)
+            return
+        sm.SM.attribute(self, out, prop, cfgname, rec, fail, acts, how)
+
+
+# ------------------------------------------------------------------------------------------------
 def run(prop, tier, seed):
     out = vf.Outcome(prop, tier, seed, "model_checking")
     out.assumptions += ["code observed as compiled for tests (debug assertions, overflow checks on)",
@@ -209,12 +308,19 @@ def run(prop, tier, seed):
         out.assumptions.append("the leap indicator of the server state cannot be set through the public API (time_snapshot is never updated): "
                                "only the default (no leap flags) is exercised")
         run_c45(out, tier, seed)
+    elif prop == "C44":
+        out.coverage["rule"] = ("every transition of the bounded client model (RequestState machine x datagram classes x timeouts, C44_Step "
+                                "checked by TLC in every reachable state) is covered by a transition tour replayed on the real "
+                                "CsptpSource::run with a scripted ClientSocket on the paused tokio clock")
+        out.assumptions.append("the status update of the manager (steps_removed + 1) is not exercised: no source is marked active")
+        CsptpClient().model_and_replay(out, prop, tier, seed, tier, max_len=40)
+        out.add("traces_validated_against_impl", 0)
     else:
         raise vf.ToolError("no check for %s" % prop)
     return out
 
 
-PROPS = ["C41", "C45"]
+PROPS = ["C41", "C45", "C44"]
 
 _T = ("TLA+ grammar/codec specification model-checked with TLC over the bounded input-class space; every class concretised and "
       "replayed on the real code through the stand-alone harness (harness/ext)")
@@ -225,6 +331,15 @@ MANIFEST = {
                      "enumeration, parse->serialise prefix, no panic; plus seeded byte-level mutation for parse totality.",
                 note="bounded grammar; canonical field values only; byte-level totality is exploration (seeded mutations), not a proof; "
                      "error kinds (Invalid vs BufferTooShort) and the acceptance of non-serialised byte strings are outside the cone"),
+    "C44": dict(level="model_checking", technique="TLA+ state machine (spec/Csptp.tla client part) model-checked with TLC; every explored "
+                "transition replayed on the real CsptpSource::run (transition tour, scripted socket, paused clock)",
+                design_ref="6.11, 7 (C44), 9 (F-15)", engine="tlc+replay",
+                text="RequestState machine over 2 (thorough: 3) requests x ~70 datagram classes (one-/two-step responses, follow-ups, "
+                     "requests, other PTP, garbage, missing receive timestamp; matching / wrong sequence id / wrong domain; origin timestamp "
+                     "0 / mid / 2^48-1 s; corrections 0, +-1 ns, i64::MAX/MIN): a measurement only from matching response (+ follow-up, "
+                     "either order), at most once per request, provenance by tagged timestamps, no panic.",
+                note="'only from' is read one-directionally: a missing measurement is reported as a divergence, not a violation; values "
+                     "of corrected timestamps are compared only when in range and lie outside the cone; status handling not exercised"),
     "C45": dict(level="model_checking", technique=_T, design_ref="6.11, 7 (C45)", engine="tlc+replay",
                 text="48 server states (timescale/traceability flags x receive-time class x send_event result) x 90 datagram classes "
                      "(well-formed requests over ids, correction classes, flags, TLV arrangements; one-deviation non-requests): answered iff "
